@@ -95,3 +95,19 @@ for _p in ("C03", "C04", "C06", "C07"):
     PROPS[_p].setdefault("assumptions", []).extend(tierb_async.ASSUME_TEXT)
 PROPS["C10"]["stages"].append(tierb_async.stage_for("C10", what=("reset",)))
 PROPS["C10"].setdefault("assumptions", []).extend(tierb_async.ASSUME_TEXT[:3])
+
+for _p in ("C03", "C06"):
+    PROPS[_p]["stages"].append(tierb_c12.stage)
+
+from . import tierb_misc  # noqa: E402
+PROPS["C10"]["stages"].append(tierb_misc.fft_reset_stage)
+
+prop("C05", level="other",
+     stages=[tierc.stage_for("C05"), tierb_async.stage_for("C05")],
+     technique="Tier B buffer-window obligations (history shift / chunk load / carried position) + Z3; Verus on the FFT block bookkeeping",
+     explanation="Output independent of chunking: the buffer-window invariant (buffer[j] holds stream frame consumed - fill - 2L + j) is preserved by the "
+                 "history shift and chunk load of every call (shift source == what the previous call loaded, load appended right after the 2L history, "
+                 "also when guarded by a condition), set_chunk_size leaves position, ratios and recorded fill untouched, the carried position is "
+                 "relative to the frames just consumed. The step from these contracts to 'two chunkings give the same samples' is a meta-argument "
+                 "(DESIGN.md 4 C05), not a machine-checked relational proof.",
+     trusted_base=FFT_TRUST, assumptions=list(tierb_async.ASSUME_TEXT))
